@@ -21,7 +21,7 @@ macro_rules! c01_same {
         $r.form("saturating", || val(a.saturating_add(b)));
         $r.form("strict", || val(a.strict_add(b)));
         $r.form("op", || val(a + b));
-        if a.checked_add(b).is_some() {
+        if gen::add_fits(&a.enc(), &b.enc(), wsigned(&a)) {
             $r.form("unchecked", || val(unsafe { a.unchecked_add(b) }));
         }
         $r.fam("sub", vec![int(&a), int(&b)]);
@@ -31,7 +31,7 @@ macro_rules! c01_same {
         $r.form("saturating", || val(a.saturating_sub(b)));
         $r.form("strict", || val(a.strict_sub(b)));
         $r.form("op", || val(a - b));
-        if a.checked_sub(b).is_some() {
+        if gen::sub_fits(&a.enc(), &b.enc(), wsigned(&a)) {
             $r.form("unchecked", || val(unsafe { a.unchecked_sub(b) }));
         }
     }};
@@ -128,7 +128,7 @@ macro_rules! c02_same {
         $r.form("saturating", || val(a.saturating_mul(b)));
         $r.form("strict", || val(a.strict_mul(b)));
         $r.form("op", || val(a * b));
-        if a.checked_mul(b).is_some() {
+        if gen::mul_fits(&a.enc(), &b.enc(), wsigned(&a)) {
             $r.form("unchecked", || val(unsafe { a.unchecked_mul(b) }));
         }
     }};
